@@ -16,7 +16,7 @@ RULE = ("Cases = (routine, matrix, parameters, seed) for the ten routines; matri
         "latticisation re-index relation) plus, through the BCTPY_VERIF per-swap hook, edge-list/matrix correspondence and degree "
         "preservation after every accepted swap. Non-trivial = at least one swap was carried out (eff>=1 or output != input) on a graph with "
         ">= 3 distinct degree values or unequal in/out degree sequences; distinct by hash of the whole case.")
-BOUNDS = {"n": "4..12 quick, 4..24 thorough", "itr": [0, 1, 2, 5], "per_call_timeout_s": 10}
+BOUNDS = {"n": "4..12 quick, 4..24 thorough; up to 32 in the large unit", "itr": [0, 1, 2, 5], "per_call_timeout_s": 10}
 MIN_NONTRIVIAL = {"quick": 300, "thorough": 3000}
 
 
@@ -260,4 +260,6 @@ def units(tier):
     us = []
     for name in rewire.UND + rewire.DIR:
         us.append(Unit(name, check, strategy=(lambda nm=name: cases([nm], nmax)), examples=(300, 5000), shards=(2, 8)))
+    # larger networks (every routine): long edge lists, many candidate swaps, several rounds of the attempt loops
+    us.append(Unit("all-routines-n<=32", check, strategy=lambda: cases(rewire.UND + rewire.DIR, 32), examples=(96, 1600), shards=(16, 16)))
     return us
